@@ -11,13 +11,18 @@ import (
 	"context"
 	"fmt"
 	"io"
+	"os"
+	"os/exec"
 	"strings"
 
 	"github.com/hedzr/is"
 	"github.com/hedzr/logg/slog"
 )
 
-func init() { props["C02"] = runC02 }
+func init() {
+	props["C02"] = runC02
+	childModes["c02test"] = c02Test
+}
 
 type garg struct {
 	kind  string // str, val, attr, attrs, group, attrval
@@ -253,14 +258,51 @@ func (g *rng) c02NewLogger(format string, idx int, pkg bool) *c02Logger {
 }
 
 func runC02(r *run) {
-	g := &rng{s: r.seed*1000003 + 2}
 	r.rule = "sequences of 10 verb calls (22 entry points of 3 loggers / the package functions, all logger levels incl. Off and Always, custom severities) with free-form argument lists (pairs with values of every kind, Attr, []Attr, Attrs, Group(...) with free-form members, nil, dangling keys, non-strings and empty strings in key position, Println with a non-string first argument), any message bytes incl. white-space-only; distinct = distinct (format, verb, admitted, argument shapes, message class); non-trivial = calls with at least one argument or a blank message"
 	rounds := 300
 	if r.tier == "thorough" {
 		rounds = 6000
 	}
+	c02Body(r, rounds, false)
+	// the same delivery oracles in go-test mode (the error dump after a record is active only there):
+	// the twin binary harness.test, oracle-only
+	if exe := os.Getenv("VERIF_HARNESS"); exe != "" {
+		if err := r.mergeChild(exec.Command(exe+".test", "-test.v", "c02test", fmt.Sprint(r.seed), r.tier)); err != nil {
+			r.violate(violation{What: "the go-test-mode twin of the harness failed: " + err.Error()})
+		}
+	} else {
+		r.violate(violation{What: "VERIF_HARNESS is not set: the go-test-mode sweep cannot be run"})
+	}
+	slog.VerifResetGlobals()
+}
+
+// c02test <seed> <tier>: the open stream only, in go-test mode
+func c02Test(a []string) {
+	seed, tier := uint64(1), "quick"
+	if len(a) >= 2 {
+		fmt.Sscan(a[0], &seed)
+		tier = a[1]
+	}
+	dir, err := os.MkdirTemp("", "c02test")
+	must(err)
+	defer os.RemoveAll(dir)
+	r := newRun("C02", seed+7919, tier, dir)
+	if !slog.VerifInTesting() {
+		r.violate(violation{What: "harness: the twin is not in go-test mode"})
+	}
+	rounds := 150
+	if tier == "thorough" {
+		rounds = 2000
+	}
+	c02Body(r, rounds, true)
+	r.reportAsChild()
+}
+
+// c02Body: openOnly = every round is an open-stream round (oracles only, no protocol lines)
+func c02Body(r *run, rounds int, openOnly bool) {
+	g := &rng{s: r.seed*1000003 + 2}
 	for round := 0; round < rounds; round++ {
-		open := round%4 == 3 // the open stream: oracles only
+		open := openOnly || round%4 == 3 // the open stream: oracles only
 		slog.VerifResetGlobals()
 		r.emit("C17 reset", "ok")
 		flags := slog.LstdFlags &^ slog.Lcaller
